@@ -6,6 +6,7 @@ with their meaning for the Go code in `Props/C03.lean`.
 -/
 import RegexVerif.Model.Finders
 import RegexVerif.Lemmas.Scan
+import RegexVerif.Lemmas.BoyerMooreScan
 
 namespace RegexVerif.Lemmas.Finders
 open RegexVerif RegexVerif.Finders RegexVerif.Scan RegexVerif.Lemmas.Scan
@@ -475,21 +476,114 @@ theorem finderAnchors_rtl (lower : Nat → Nat) (a : Anchors) (bm : Option Bm) (
 
 /-! ### path 2: Boyer-Moore scan -/
 
-theorem finderBmScan_sound (lower : Nat → Nat) (b : Bm) (rtl : Bool) (text : List Nat)
+/-- `newBmPrefix` accepts the pattern (non-empty, no rune above U+FFFF): the compiled program has a
+    `Code.BmPrefix` only then -/
+def BmBuilt (b : Bm) (rtl : Bool) : Prop := (BoyerMoore.build b.pat b.ci rtl).isSome = true
+
+/-- the soundness of the SPECIFICATION of the scan (first position in scan order at which `IsMatch` holds) -/
+theorem finderBmScanSpec_sound (lower : Nat → Nat) (b : Bm) (rtl : Bool) (text : List Nat)
     (attempt : Nat → Option (Nat × Nat)) (hB : BmFact lower b rtl text attempt) :
-    FinderSound rtl text.length (finderBmScan lower b rtl text) attempt := by
+    FinderSound rtl text.length (finderBmScanSpec lower b rtl text) attempt := by
   cases rtl
   · apply finderSound_ltr
     intro pos hpos
-    simp only [finderBmScan, Bool.false_eq_true, if_false]
+    simp only [finderBmScanSpec, Bool.false_eq_true, if_false]
     apply ltrPost_of_opt _ _ _ hpos
     apply findUp_opt _ _ _ _ _ (by omega) hB
     intro p h1 h2; omega
   · apply finderSound_rtl
     intro pos hpos
-    simp only [finderBmScan, if_true]
+    simp only [finderBmScanSpec, if_true]
     apply rtlPost_of_opt
     exact findDown_opt _ _ _ _ hpos hB
+
+/-- **the Boyer-Moore scan computes its specification**: with the tables of `newBmPrefix` and the skip loop
+    of `Scan`, the finder returns the first position in scan order at which `IsMatch` holds, and gives up
+    exactly when there is none -/
+theorem finderBmScan_eq_spec (lower : Nat → Nat) (b : Bm) (rtl : Bool) (text : List Nat) (hW : BmBuilt b rtl)
+    (pos : Nat) (hpos : pos ≤ text.length) :
+    finderBmScan lower b rtl text pos = finderBmScanSpec lower b rtl text pos := by
+  obtain ⟨pat, ci⟩ := b
+  unfold BmBuilt at hW
+  simp only [] at hW
+  cases hb : BoyerMoore.build pat ci rtl with
+  | none => rw [hb] at hW; simp at hW
+  | some t =>
+    obtain ⟨hne, _, _, _, _, _⟩ := Lemmas.BoyerMoore.build_some pat ci rtl t hb
+    have hspec := Lemmas.BoyerMoore.scan_spec lower pat ci rtl t hb text pos 0 text.length (Nat.zero_le _) hpos (Nat.le_refl _)
+    unfold finderBmScan finderBmScanSpec
+    simp only [hb]
+    have hfit : ∀ q, occursAt (Bm.eq lower ⟨pat, ci⟩) pat text q = true → q + pat.length ≤ text.length :=
+      fun q h => occursAt_fits' _ pat text q hne h
+    cases rtl with
+    | false =>
+      simp only [Bool.false_eq_true, if_false]
+      congr 1
+      simp only [Bool.false_eq_true, if_false] at hspec
+      cases hs : BoyerMoore.scan lower t text pos 0 text.length with
+      | none =>
+        rw [hs] at hspec
+        cases hf : findUp (bmIsMatch lower ⟨pat, ci⟩ false text) (text.length + 1 - pos) pos with
+        | none => rfl
+        | some r =>
+          exfalso
+          obtain ⟨h1, h2, h3, _⟩ := findUp_some _ _ _ _ hf
+          have hfits := hfit r (by simpa [bmIsMatch] using h3)
+          rw [hspec r ⟨h1, hfits⟩] at h3; simp at h3
+      | some i =>
+        rw [hs] at hspec
+        obtain ⟨⟨x1, x2⟩, x3, x4⟩ := hspec
+        cases hf : findUp (bmIsMatch lower ⟨pat, ci⟩ false text) (text.length + 1 - pos) pos with
+        | none =>
+          exfalso
+          have := findUp_none _ _ _ hf i x1 (by omega)
+          rw [this] at x3; simp at x3
+        | some r =>
+          obtain ⟨h1, h2, h3, h4⟩ := findUp_some _ _ _ _ hf
+          congr 1
+          by_cases hlt : i < r
+          · have := h4 i x1 hlt; rw [this] at x3; simp at x3
+          · by_cases hgt : r < i
+            · have := x4 r ⟨h1, hgt⟩; rw [this] at h3; simp at h3
+            · omega
+    | true =>
+      simp only [if_true]
+      congr 1
+      simp only [if_true] at hspec
+      cases hs : BoyerMoore.scan lower t text pos 0 text.length with
+      | none =>
+        rw [hs] at hspec
+        cases hf : findDown (bmIsMatch lower ⟨pat, ci⟩ true text) pos with
+        | none => rfl
+        | some r =>
+          exfalso
+          obtain ⟨h1, h2, _⟩ := findDown_some _ _ _ hf
+          have hl : pat.length ≤ r := by
+            simp only [bmIsMatch, if_true, Bool.and_eq_true, decide_eq_true_eq] at h2; exact h2.1
+          rw [hspec r ⟨h1, by omega⟩] at h2; simp at h2
+      | some i =>
+        rw [hs] at hspec
+        obtain ⟨⟨x1, x2⟩, x3, x4⟩ := hspec
+        cases hf : findDown (bmIsMatch lower ⟨pat, ci⟩ true text) pos with
+        | none =>
+          exfalso
+          have := findDown_none _ _ hf i x1
+          rw [this] at x3; simp at x3
+        | some r =>
+          obtain ⟨h1, h2, h3⟩ := findDown_some _ _ _ hf
+          congr 1
+          by_cases hlt : i < r
+          · have := x4 r ⟨hlt, h1⟩; rw [this] at h2; simp at h2
+          · by_cases hgt : r < i
+            · have := h3 i hgt x1; rw [this] at x3; simp at x3
+            · omega
+
+theorem finderBmScan_sound (lower : Nat → Nat) (b : Bm) (rtl : Bool) (text : List Nat)
+    (attempt : Nat → Option (Nat × Nat)) (hW : BmBuilt b rtl) (hB : BmFact lower b rtl text attempt) :
+    FinderSound rtl text.length (finderBmScan lower b rtl text) attempt := by
+  intro pos hpos
+  rw [finderBmScan_eq_spec lower b rtl text hW pos hpos]
+  exact finderBmScanSpec_sound lower b rtl text attempt hB pos hpos
 
 /-! ### path 4: first-character set -/
 
@@ -1058,6 +1152,394 @@ theorem finderLiteralAfterLoop_sound (lower : Nat → Nat) (l : LitAfterLoop) (S
     intro p k hp1 _ _ hk1 _ _
     omega
 
+/-! ### the required-landmark chain -/
+
+/-- from `lb` on the remaining landmarks occur in order: some alternative of the next landmark matches with
+    its core at `c ≥ lb`, and the rest of the chain from the earliest end of that alternative's core -/
+def LmChainAt (text : List Nat) : List (List LmAlt) → Nat → Prop
+  | [], _ => True
+  | alts :: rest, lb => ∃ c alt, lb ≤ c ∧ alt ∈ alts ∧ (lmAltMatch text c alt).isSome = true ∧
+      LmChainAt text rest (c + alt.minWidth)
+
+/-- the landmark chain is present from position `p`: a run of leading-loop characters `[p, a)`, then a run
+    `[a, c)` of characters that are leading whitespace of some alternative of the first landmark, then an
+    alternative of the first landmark with its core at `c` (as `requiredLandmarkAlternativeMatch` tests it),
+    then every later landmark in order, each core starting no earlier than the previous core's start plus
+    the SHORTEST width of the alternative used -/
+def LandmarkAt (S : Nat → Bool) (first : List LmAlt) (rest : List (List LmAlt)) (text : List Nat) (p : Nat) : Prop :=
+  ∃ a c alt, p ≤ a ∧ a ≤ c ∧ (∀ j, p ≤ j → j < a → memAt S text j = true) ∧
+    (∀ j, a ≤ j → j < c → memAt (lmLeadingWs first) text j = true) ∧
+    alt ∈ first ∧ (lmAltMatch text c alt).isSome = true ∧ LmChainAt text rest (c + alt.minWidth)
+
+/-- the fact `findRequiredLandmarkChainLeftToRight` consumes: the chain is present from every successful
+    attempt position -/
+def LandmarkFact (S : Nat → Bool) (first : List LmAlt) (rest : List (List LmAlt)) (text : List Nat)
+    (attempt : Nat → Option (Nat × Nat)) : Prop :=
+  ∀ p, p ≤ text.length → attempt p ≠ none → LandmarkAt S first rest text p
+
+theorem runOf_le (S : Nat → Bool) (text : List Nat) (start maxRepeat : Nat) : ∀ (fuel e : Nat), e ≤ text.length →
+    runOf S text start maxRepeat fuel e ≤ text.length := by
+  intro fuel
+  induction fuel with
+  | zero => intro e h; simpa [runOf] using h
+  | succ fuel ih =>
+    intro e h
+    unfold runOf
+    split
+    · rename_i hc
+      simp only [Bool.and_eq_true, decide_eq_true_eq] at hc
+      exact ih (e + 1) (by omega)
+    · exact h
+
+/-- giving repetitions back stops at the last admissible end followed by whitespace, at the minimum at the latest -/
+theorem giveBack_spec (W : Option (Nat → Bool)) (text : List Nat) (start minRepeat : Nat) : ∀ (e : Nat),
+    start + minRepeat ≤ e →
+    start + minRepeat ≤ giveBack W text start minRepeat e ∧ giveBack W text start minRepeat e ≤ e ∧
+    (∀ z, start + minRepeat ≤ z → z ≤ e → z < text.length → optMemAt W text z = true →
+      z ≤ giveBack W text start minRepeat e) ∧
+    (giveBack W text start minRepeat e = start + minRepeat ∨
+      (giveBack W text start minRepeat e < text.length ∧ optMemAt W text (giveBack W text start minRepeat e) = true)) := by
+  intro e
+  induction e with
+  | zero =>
+    intro h
+    have h0 : giveBack W text start minRepeat 0 = 0 := rfl
+    rw [h0]
+    exact ⟨h, Nat.le_refl _, fun z _ z2 _ _ => z2, Or.inl (by omega)⟩
+  | succ e ih =>
+    intro h
+    unfold giveBack
+    by_cases hc : (decide (minRepeat < e + 1 - start) && (decide (text.length ≤ e + 1) || !optMemAt W text (e + 1))) = true
+    · rw [if_pos hc]
+      simp only [Bool.and_eq_true, decide_eq_true_eq, Bool.or_eq_true, Bool.not_eq_true'] at hc
+      obtain ⟨h1, h2, h3, h4⟩ := ih (by omega)
+      refine ⟨h1, by omega, ?_, h4⟩
+      intro z z1 z2 z3 z4
+      by_cases hz : z = e + 1
+      · subst hz
+        rcases hc.2 with hn | hw
+        · omega
+        · rw [hw] at z4; simp at z4
+      · exact h3 z z1 (by omega) z3 z4
+    · rw [if_neg hc]
+      refine ⟨h, Nat.le_refl _, fun z _ z2 _ _ => z2, ?_⟩
+      simp only [Bool.and_eq_true, decide_eq_true_eq, Bool.or_eq_true, Bool.not_eq_true', not_and, not_or,
+        Nat.not_le, Bool.not_eq_false] at hc
+      by_cases hm : minRepeat < e + 1 - start
+      · right; exact hc hm
+      · left; omega
+
+/-- the core of an alternative is at least as wide as its minimum and ends inside the input -/
+theorem lmCore_some (text : List Nat) (c : Nat) (alt : LmAlt) (e : Nat) (h : lmCore text c alt = some e) :
+    c < e ∧ e ≤ text.length := by
+  unfold lmCore at h
+  simp only [] at h
+  by_cases hl : alt.literal.isEmpty = true
+  · simp only [hl, Bool.not_true, Bool.false_eq_true, if_false] at h
+    cases hs : alt.set with
+    | none => simp [hs] at h
+    | some S =>
+      simp only [hs] at h
+      by_cases hm : 0 < alt.minRepeat
+      · simp only [hm, if_true] at h
+        by_cases hrun : runOf S text c (if alt.maxRepeat ≤ 0 then alt.minRepeat else alt.maxRepeat.toNat) (text.length + 1) c - c < alt.minRepeat
+        · rw [if_pos hrun] at h; simp at h
+        · rw [if_neg hrun] at h
+          have hbound : runOf S text c (if alt.maxRepeat ≤ 0 then alt.minRepeat else alt.maxRepeat.toNat) (text.length + 1) c ≤ text.length := by
+            by_cases hcn : c ≤ text.length
+            · exact runOf_le S text c _ (text.length + 1) c hcn
+            · exfalso
+              apply hrun
+              have : runOf S text c (if alt.maxRepeat ≤ 0 then alt.minRepeat else alt.maxRepeat.toNat) (text.length + 1) c = c := by
+                unfold runOf
+                have : ¬ c < text.length := by omega
+                simp [this]
+              rw [this]; omega
+          by_cases hgb : (alt.reqAfter && alt.trailWs.isSome) = true
+          · rw [if_pos hgb] at h
+            injection h with h
+            subst h
+            have hge : c + alt.minRepeat ≤ runOf S text c (if alt.maxRepeat ≤ 0 then alt.minRepeat else alt.maxRepeat.toNat) (text.length + 1) c := by omega
+            obtain ⟨g1, g2, _, _⟩ := giveBack_spec alt.trailWs text c alt.minRepeat _ hge
+            exact ⟨by omega, by omega⟩
+          · rw [if_neg hgb] at h
+            injection h with h
+            subst h
+            exact ⟨by omega, hbound⟩
+      · simp [hm] at h
+  · simp only [hl, Bool.not_false, if_true] at h
+    by_cases hfit : (decide (text.length < c + alt.literal.length) || !occursAt eqExact alt.literal text c) = true
+    · rw [if_pos hfit] at h; simp at h
+    · rw [if_neg hfit] at h
+      injection h with h
+      subst h
+      simp only [Bool.or_eq_true, decide_eq_true_eq, not_or, Nat.not_lt] at hfit
+      have hne : alt.literal ≠ [] := by simpa [List.isEmpty_iff] using hl
+      have := List.length_pos_iff.mpr hne
+      exact ⟨by omega, by omega⟩
+
+/-- an alternative that matches has its core where it was tried, inside the input -/
+theorem lmAltMatch_some (text : List Nat) (c : Nat) (alt : LmAlt) (mt : LmMatch)
+    (h : lmAltMatch text c alt = some mt) : mt.coreStart = c ∧ c < text.length := by
+  unfold lmAltMatch at h
+  simp only [] at h
+  split at h
+  · simp at h
+  · cases hc : lmCore text c alt with
+    | none => rw [hc] at h; simp at h
+    | some e =>
+      rw [hc] at h
+      simp only [] at h
+      obtain ⟨h1, h2⟩ := lmCore_some text c alt e hc
+      split at h
+      · simp at h
+      · injection h with h; subst h; exact ⟨rfl, by omega⟩
+
+theorem lmMinEnd_le (cs : Nat) : ∀ (alts : List LmAlt) (e0 : Nat),
+    alts.foldl (fun minEnd other => if cs + other.minWidth < minEnd then cs + other.minWidth else minEnd) e0 ≤ e0 ∧
+    ∀ o, o ∈ alts →
+      alts.foldl (fun minEnd other => if cs + other.minWidth < minEnd then cs + other.minWidth else minEnd) e0 ≤ cs + o.minWidth := by
+  intro alts
+  induction alts with
+  | nil => intro e0; simp
+  | cons a rest ih =>
+    intro e0
+    simp only [List.foldl_cons]
+    by_cases hlt : cs + a.minWidth < e0
+    · simp only [hlt, if_true]
+      obtain ⟨h1, h2⟩ := ih (cs + a.minWidth)
+      refine ⟨by omega, ?_⟩
+      intro o ho
+      simp only [List.mem_cons] at ho
+      rcases ho with rfl | ho
+      · exact h1
+      · exact h2 o ho
+    · simp only [hlt, if_false]
+      obtain ⟨h1, h2⟩ := ih e0
+      refine ⟨h1, ?_⟩
+      intro o ho
+      simp only [List.mem_cons] at ho
+      rcases ho with rfl | ho
+      · omega
+      · exact h2 o ho
+
+/-- `findNextRequiredLandmarkRunes`: the first position at or after `i` where an alternative matches, and an
+    earliest end that no alternative's core can undercut -/
+theorem lmFindNext_spec (text : List Nat) (alts : List LmAlt) : ∀ (fuel i : Nat), text.length ≤ i + fuel →
+    match lmFindNext text alts fuel i with
+    | some (mt, minEnd) => i ≤ mt.coreStart ∧ mt.coreStart < text.length ∧
+        (∀ c, i ≤ c → c < mt.coreStart → ∀ alt, alt ∈ alts → lmAltMatch text c alt = none) ∧
+        (∀ o, o ∈ alts → minEnd ≤ mt.coreStart + o.minWidth)
+    | none => ∀ c, i ≤ c → ∀ alt, alt ∈ alts → lmAltMatch text c alt = none := by
+  intro fuel
+  induction fuel with
+  | zero =>
+    intro i h
+    simp only [lmFindNext]
+    intro c hc alt _
+    cases hm : lmAltMatch text c alt with
+    | none => rfl
+    | some mt => have := (lmAltMatch_some text c alt mt hm).2; omega
+  | succ fuel ih =>
+    intro i h
+    unfold lmFindNext
+    by_cases hin : i < text.length
+    · rw [if_pos hin]
+      cases hf : alts.findSome? (lmAltMatch text i) with
+      | some mt =>
+        simp only []
+        obtain ⟨alt, halt, hm⟩ := List.exists_of_findSome?_eq_some hf
+        obtain ⟨hcs, _⟩ := lmAltMatch_some text i alt mt hm
+        refine ⟨by omega, by omega, fun c h1 h2 => by omega, ?_⟩
+        intro o ho
+        exact (lmMinEnd_le mt.coreStart alts mt.«end»).2 o ho
+      | none =>
+        simp only []
+        have hnone : ∀ alt, alt ∈ alts → lmAltMatch text i alt = none := by
+          intro alt halt
+          exact (List.findSome?_eq_none_iff.mp hf) alt halt
+        have := ih (i + 1) (by omega)
+        cases hr : lmFindNext text alts fuel (i + 1) with
+        | none =>
+          rw [hr] at this
+          intro c hc alt halt
+          by_cases hci : c = i
+          · subst hci; exact hnone alt halt
+          · exact this c (by omega) alt halt
+        | some r =>
+          rw [hr] at this
+          obtain ⟨mt, minEnd⟩ := r
+          obtain ⟨x1, x2, x3, x4⟩ := this
+          refine ⟨by omega, x2, ?_, x4⟩
+          intro c hc1 hc2 alt halt
+          by_cases hci : c = i
+          · subst hci; exact hnone alt halt
+          · exact x3 c (by omega) hc2 alt halt
+    · rw [if_neg hin]
+      intro c hc alt _
+      cases hm : lmAltMatch text c alt with
+      | none => rfl
+      | some mt => have := (lmAltMatch_some text c alt mt hm).2; omega
+
+/-- if the remaining landmarks occur in order from `lb`, the inner loop of the finder succeeds from any
+    earlier start -/
+theorem lmRest_of_chain (text : List Nat) : ∀ (rest : List (List LmAlt)) (lb lb' : Nat),
+    LmChainAt text rest lb → lb' ≤ lb → lmRest text rest lb' = true := by
+  intro rest
+  induction rest with
+  | nil => intro lb lb' _ _; rfl
+  | cons alts rest ih =>
+    intro lb lb' hch hle
+    obtain ⟨c, alt, hc1, halt, hm, hrest⟩ := hch
+    unfold lmRest
+    have hspec := lmFindNext_spec text alts (text.length + 1) lb' (by omega)
+    cases hf : lmFindNext text alts (text.length + 1) lb' with
+    | none =>
+      rw [hf] at hspec
+      have := hspec c (by omega) alt halt
+      rw [this] at hm; simp at hm
+    | some r =>
+      rw [hf] at hspec
+      obtain ⟨mt, minEnd⟩ := r
+      obtain ⟨x1, x2, x3, x4⟩ := hspec
+      simp only []
+      have hcs : mt.coreStart ≤ c := by
+        by_cases hlt : c < mt.coreStart
+        · have := x3 c (by omega) hlt alt halt
+          rw [this] at hm; simp at hm
+        · omega
+      have := x4 alt halt
+      exact ih (c + alt.minWidth) minEnd hrest (by omega)
+
+theorem lmLoop_range (S : Nat → Bool) (first : List LmAlt) (rest : List (List LmAlt)) (text : List Nat)
+    (minLen pos : Nat) : ∀ (fuel s q : Nat), pos ≤ s →
+    lmLoop S first rest text minLen pos fuel s = some q → pos ≤ q ∧ q ≤ text.length := by
+  intro fuel
+  induction fuel with
+  | zero => intro s q _ h; simp [lmLoop] at h
+  | succ fuel ih =>
+    intro s q hs h
+    unfold lmLoop at h
+    split at h
+    · have hspec := lmFindNext_spec text first (text.length + 1) s (by omega)
+      cases hf : lmFindNext text first (text.length + 1) s with
+      | none => rw [hf] at h; simp at h
+      | some r =>
+        rw [hf] at h hspec
+        obtain ⟨mt, e⟩ := r
+        obtain ⟨x1, x2, _, _⟩ := hspec
+        simp only [] at h
+        split at h
+        · obtain ⟨w1, w2, _, _⟩ := walkBack_spec (lmLeadingWs first) text pos mt.coreStart (by omega)
+          obtain ⟨v1, v2, _, _⟩ := walkBack_spec S text pos (walkBack (lmLeadingWs first) text pos mt.coreStart) w1
+          split at h
+          · injection h with h; subst h; exact ⟨v1, by omega⟩
+          · exact ih (mt.coreStart + 1) q (by omega) h
+        · simp at h
+    · simp at h
+
+theorem finderLandmarkChain_sound (ch : LmChain) (S : Nat → Bool) (first : List LmAlt) (rest : List (List LmAlt))
+    (text : List Nat) (minLen : Nat) (attempt : Nat → Option (Nat × Nat))
+    (hS : ch.loopSet = some S) (hL : ch.landmarks = first :: rest)
+    (hF : LandmarkFact S first rest text attempt)
+    (hM : MinLenSound false text.length minLen attempt) :
+    FinderSound false text.length (finderLandmarkChain ch text minLen) attempt := by
+  apply finderSound_ltr
+  intro pos hpos
+  unfold finderLandmarkChain
+  simp only [hS, hL]
+  apply ltrPost_of_opt _ _ _ hpos
+  -- only the first iteration decides: later ones run when no position from `pos` on can match
+  show LtrOpt attempt text.length pos (lmLoop S first rest text minLen pos (text.length + 1) pos)
+  have hnone : ∀ {P : Prop}, (∀ p, pos ≤ p → p ≤ text.length → attempt p ≠ none → P) →
+      (¬ P → ∀ p, pos ≤ p → p ≤ text.length → attempt p = none) := by
+    intro P h hnp p h1 h2
+    cases ha : attempt p with
+    | none => rfl
+    | some m => exact absurd (h p h1 h2 (by rw [ha]; simp)) hnp
+  unfold lmLoop
+  by_cases hg : pos + minLen ≤ text.length
+  · rw [if_pos hg]
+    have hspec := lmFindNext_spec text first (text.length + 1) pos (by omega)
+    cases hf : lmFindNext text first (text.length + 1) pos with
+    | none =>
+      rw [hf] at hspec
+      simp only [LtrOpt]
+      apply hnone (P := False) _ (fun h => h)
+      intro p h1 h2 hne
+      obtain ⟨a, c, alt, y1, y2, _, _, y5, y6, _⟩ := hF p h2 hne
+      have := hspec c (by omega) alt y5
+      rw [this] at y6; simp at y6
+    | some r =>
+      rw [hf] at hspec
+      obtain ⟨mt, firstMinEnd⟩ := r
+      obtain ⟨x1, x2, x3, x4⟩ := hspec
+      simp only []
+      -- every matching position at or after `pos` has its first landmark at or after the one found
+      have hreal : ∀ p, pos ≤ p → p ≤ text.length → attempt p ≠ none →
+          lmRest text rest firstMinEnd = true ∧
+          walkBack S text pos (walkBack (lmLeadingWs first) text pos mt.coreStart) ≤ p := by
+        intro p h1 h2 hne
+        obtain ⟨a, c, alt, y1, y2, y3, y4, y5, y6, y7⟩ := hF p h2 hne
+        have hcs : mt.coreStart ≤ c := by
+          by_cases hlt : c < mt.coreStart
+          · have := x3 c (by omega) hlt alt y5
+            rw [this] at y6; simp at y6
+          · omega
+        refine ⟨lmRest_of_chain text rest _ _ y7 (by have := x4 alt y5; omega), ?_⟩
+        obtain ⟨w1, w2, w3, w4⟩ := walkBack_spec (lmLeadingWs first) text pos mt.coreStart (by omega)
+        have hc1a : walkBack (lmLeadingWs first) text pos mt.coreStart ≤ a := by
+          rcases w4 with heq | ⟨hpos', hnot⟩
+          · omega
+          · by_cases hgt : a < walkBack (lmLeadingWs first) text pos mt.coreStart
+            · have := y4 (walkBack (lmLeadingWs first) text pos mt.coreStart - 1) (by omega) (by omega)
+              rw [this] at hnot; simp at hnot
+            · omega
+        obtain ⟨v1, v2, v3, v4⟩ := walkBack_spec S text pos _ w1
+        rcases v4 with heq | ⟨hpos', hnot⟩
+        · omega
+        · by_cases hgt : p < walkBack S text pos (walkBack (lmLeadingWs first) text pos mt.coreStart)
+          · have := y3 (walkBack S text pos (walkBack (lmLeadingWs first) text pos mt.coreStart) - 1) (by omega) (by omega)
+            rw [this] at hnot; simp at hnot
+          · omega
+      by_cases hrest : lmRest text rest firstMinEnd = true
+      · rw [if_pos hrest]
+        obtain ⟨w1, w2, _, _⟩ := walkBack_spec (lmLeadingWs first) text pos mt.coreStart (by omega)
+        obtain ⟨v1, v2, _, _⟩ := walkBack_spec S text pos _ w1
+        by_cases hlen : hasLen minLen text.length (walkBack S text pos (walkBack (lmLeadingWs first) text pos mt.coreStart)) = true
+        · rw [if_pos hlen]
+          refine ⟨v1, by omega, ?_⟩
+          intro p hp1 hp2
+          cases ha : attempt p with
+          | none => rfl
+          | some m =>
+            have := (hreal p hp1 (by omega) (by rw [ha]; simp)).2
+            omega
+        · rw [if_neg hlen]
+          simp only [hasLen, decide_eq_true_eq] at hlen
+          have hno : ∀ p, pos ≤ p → p ≤ text.length → attempt p = none := by
+            apply hnone (P := False) _ (fun h => h)
+            intro p h1 h2 hne
+            have := (hreal p h1 h2 hne).2
+            have := minLen_ltr hM p h2 hne
+            omega
+          cases hr : lmLoop S first rest text minLen pos text.length (mt.coreStart + 1) with
+          | none => exact hno
+          | some q =>
+            obtain ⟨q1, q2⟩ := lmLoop_range S first rest text minLen pos _ _ q (by omega) hr
+            exact ⟨q1, q2, fun p hp1 hp2 => hno p hp1 (by omega)⟩
+      · rw [if_neg hrest]
+        apply hnone (P := False) _ (fun h => h)
+        intro p h1 h2 hne
+        exact hrest (hreal p h1 h2 hne).1
+  · rw [if_neg hg]
+    intro p h1 h2
+    cases ha : attempt p with
+    | none => rfl
+    | some m =>
+      have := minLen_ltr hM p h2 (by rw [ha]; simp)
+      omega
+
 /-! ### the dispatch of `findFirstCharDefault` -/
 
 theorem finderSound_congr (rtl : Bool) (n : Nat) (f g : Nat → Bool × Nat) (attempt : Nat → Option (Nat × Nat))
@@ -1066,9 +1548,8 @@ theorem finderSound_congr (rtl : Bool) (n : Nat) (f g : Nat → Bool × Nat) (at
   rw [h pos]
   exact hg pos hpos
 
-/-- the fact consumed by the helper that `findFirstCharOptimized` selects for the mode.  For the
-    required-landmark chain no fact is stated: the soundness of that helper is an assumption here
-    (oracle N and leg Fm stand in). -/
+/-- the fact consumed by the helper that `findFirstCharOptimized` selects for the mode (for the
+    required-landmark chain: `LandmarkFact`) -/
 def OptFacts (lower : Nat → Nat) (o : FindOpts) (text : List Nat) (attempt : Nat → Option (Nat × Nat)) : Prop :=
   match o.mode with
   | .trailingAnchorFixedLengthLtrEnd => ∀ p, p ≤ text.length → attempt p ≠ none → p + o.minLen = text.length
@@ -1087,13 +1568,16 @@ def OptFacts (lower : Nat → Nat) (o : FindOpts) (text : List Nat) (attempt : N
   | .literalAfterLoopLtr =>
     ∃ l S, o.literalAfterLoop = some l ∧ l.loopSet = some S ∧ LitAfterLoopFact lower l S text attempt
   | .requiredLandmarkChainLtr =>
-    ∃ ch, o.chain = some ch ∧ FinderSound false text.length (finderLandmarkChain ch text o.minLen) attempt
+    ∃ ch S first rest, o.chain = some ch ∧ ch.loopSet = some S ∧ ch.landmarks = first :: rest ∧
+      LandmarkFact S first rest text attempt
   | _ => True
 
 /-- the published facts of the path `findFirstCharDefault` takes are true at every successful attempt -/
 structure FactsSound (f : Facts) (text : List Nat) (textstart : Nat) (attempt : Nat → Option (Nat × Nat)) : Prop where
   anchors : f.anchors.any = true → AnchorFacts f.anchors text textstart attempt
   bm : ∀ b, f.bm = some b → BmFact f.lower b f.rtl text attempt
+  /-- well-formedness of the compiled program: a `Code.BmPrefix` exists only for a pattern `newBmPrefix` accepts -/
+  bmBuilt : f.anchors.any = false → ∀ b, f.bm = some b → BmBuilt b f.rtl
   opt : f.anchors.any = false → f.bm = none → shouldUse f.opts = true →
     f.rtl = false ∧ MinLenSound false text.length f.opts.minLen attempt ∧ OptFacts f.lower f.opts text attempt
   fc : f.anchors.any = false → f.bm = none → shouldUse f.opts = false →
@@ -1113,7 +1597,7 @@ theorem finderDefault_sound (f : Facts) (text : List Nat) (textstart : Nat) (att
     | some b =>
       apply finderSound_congr _ _ _ (finderBmScan f.lower b f.rtl text)
       · intro pos; simp [finderDefault, ha', hb]
-      · exact finderBmScan_sound _ _ _ _ _ (h.bm b hb)
+      · exact finderBmScan_sound _ _ _ _ _ (h.bmBuilt ha' b hb) (h.bm b hb)
     | none =>
       by_cases hsu : shouldUse f.opts = true
       · obtain ⟨hrtl, hM, hO⟩ := h.opt ha' hb hsu
@@ -1149,8 +1633,9 @@ theorem finderDefault_sound (f : Facts) (text : List Nat) (textstart : Nat) (att
         · obtain ⟨l, S, hl, hS, hL⟩ := hO
           exact hcongr _ (fun pos => by simp [finderOptimized, hm, hl])
             (finderLiteralAfterLoop_sound _ _ _ _ _ _ hS hL hM)
-        · obtain ⟨ch, hch, hS⟩ := hO
-          exact hcongr _ (fun pos => by simp [finderOptimized, hm, hch]) hS
+        · obtain ⟨ch, S, first, rest, hch, hS, hL, hF⟩ := hO
+          exact hcongr _ (fun pos => by simp [finderOptimized, hm, hch])
+            (finderLandmarkChain_sound ch S first rest text _ attempt hS hL hF hM)
       · have hsu' : shouldUse f.opts = false := by simpa using hsu
         cases hfc : f.fc with
         | none =>
